@@ -138,3 +138,39 @@ Corollary format_datetime_injective a b : min_seconds <= a / 1000000 <= max_seco
 Proof.
   intros Ha Hb E. apply format_datetime_states_the_instant in Ha, Hb. rewrite E in Ha. rewrite Ha in Hb. injection Hb as ->. reflexivity.
 Qed.
+
+(* ---- one instant, three notations, one reading ---- *)
+Lemma format_seconds_body s : format_seconds s = format_body s ++ utc_suffix.
+Proof.
+  unfold format_seconds, format_body. destruct (civil_from_days (s / 86400)) as [[y m] d].
+  repeat rewrite <- app_assoc. reflexivity.
+Qed.
+
+Lemma format_body_length s : min_seconds <= s <= max_seconds -> length (format_body s) = 19%nat.
+Proof.
+  intros H. unfold format_body.
+  assert (Hz : days_from_civil 1000 1 1 <= s / 86400 <= days_from_civil 9999 12 31).
+  { assert (L : min_seconds = -354285 * 86400) by reflexivity. assert (U : max_seconds = 2932896 * 86400 + 86399) by reflexivity.
+    assert (L' : days_from_civil 1000 1 1 = -354285) by reflexivity. assert (U' : days_from_civil 9999 12 31 = 2932896) by reflexivity. lia. }
+  pose proof (year_range _ Hz) as Y. pose proof (days_civil_roundtrip (s / 86400)) as R.
+  destruct (civil_from_days (s / 86400)) as [[y m] d]. destruct R as (R & Hm & Hd).
+  set (r := s mod 86400). assert (Hr : 0 <= r < 86400) by (subst r; lia).
+  rewrite (pad4_digits y Y), (pad2_digits m), (pad2_digits d), (pad2_digits (r / 3600)), (pad2_digits (r mod 3600 / 60)), (pad2_digits (r mod 60)),
+          (pad2_digits (y / 100)), (pad2_digits (y mod 100)) by lia.
+  reflexivity.
+Qed.
+
+Theorem read_utc_notations s : min_seconds <= s <= max_seconds ->
+  read_utc (format_body s) = Some s /\ read_utc (format_body s ++ [90]) = Some s /\ read_utc (format_body s ++ utc_suffix) = Some s.
+Proof.
+  intros H. pose proof (format_body_length s H) as L. pose proof (parse_format_seconds s H) as P. rewrite format_seconds_body in P.
+  unfold read_utc. repeat split.
+  - rewrite L. cbn [Nat.eqb]. exact P.
+  - rewrite app_length, L. cbn [length Nat.add Nat.eqb]. rewrite rev_app_distr. cbn [rev app]. rewrite rev_involutive. exact P.
+  - rewrite app_length, L. cbn [utc_suffix length Nat.add Nat.eqb]. exact P.
+Qed.
+
+(* in particular the reading of a zone-less or "Z" value equals the reading of the "+00:00" value the tools write: no host time zone enters *)
+Corollary read_utc_notation_independent s : min_seconds <= s <= max_seconds ->
+  read_utc (format_body s) = read_utc (format_seconds s) /\ read_utc (format_body s ++ [90]) = read_utc (format_seconds s).
+Proof. intros H. destruct (read_utc_notations s H) as (A & B & C). rewrite format_seconds_body, A, B, C. split; reflexivity. Qed.
